@@ -183,13 +183,22 @@ CheckRun(r) ==
       par == r.parallelism
       listing == C.action \in {"list", "list_terse"}
       expected == ExpectedRows(P, C, par)
-      expPaths == {e[1] : e \in expected}
-      kindOf(dp) == (CHOOSE e \in expected : e[1] = dp)[2]
       obs == ObservedPaths(r)
-      obsSet == {obs[i] : i \in RowIdx(r)}
+      \* A row is identified by its display path AND by whether it has rows
+      \* below it: a module and a benchmark of the same display name may be
+      \* siblings (`mod alpha {..}` next to `fn alpha()`).
+      nextRow(i) == LET S == {j \in RowIdx(r) : j > i} IN IF S = {} THEN 0 ELSE CHOOSE j \in S : \A q \in S : j <= q
+      obsIsParent(i) == LET n == nextRow(i) IN n # 0 /\ DepthOf(r.lines[n]) = DepthOf(r.lines[i]) + 1
+      keyOf(i) == <<obs[i], obsIsParent(i)>>
+      expPaths == {<<e[1], e[2] = "parent">> : e \in expected}
+      kindOf(k) == (CHOOSE e \in expected : e[1] = k[1] /\ (e[2] = "parent") = k[2])[2]
+      obsSet == {keyOf(i) : i \in RowIdx(r)}
       sel == SelectedLeaves(P, C)
+      \* a benchmark that is printed with rows below it (argument cases, thread counts)
+      leafAsParent(dp) == \E lf \in LeafOfPath(P, dp) :
+                            Runs(P, C, lf) /\ C.action # "list" /\ (lf.isArgs \/ Len(ThreadsOf(P, C, lf, par)) > 1)
       \* runnable rows in printed order
-      runnable == {i \in RowIdx(r) : obs[i] \in expPaths /\ kindOf(obs[i]) = "leaf"}
+      runnable == {i \in RowIdx(r) : keyOf(i) \in expPaths /\ kindOf(keyOf(i)) = "leaf"}
       RECURSIVE Ordered(_)
       Ordered(S) == IF S = {} THEN <<>> ELSE LET m == CHOOSE x \in S : \A y \in S : x <= y IN <<m>> \o Ordered(S \ {m})
       runRows == Ordered(runnable)
@@ -228,32 +237,35 @@ CheckRun(r) ==
     \* ------------------------------------------------- C13 (and C20, C12)
     \cup Flag(obsSet \ expPaths # {}, "C13:unselected_or_unknown_node_shown")
     \cup Flag(expPaths \ obsSet # {}, "C13:selected_node_missing")
-    \cup Flag(\E i \in RowIdx(r) : obs[i] \in expPaths /\
-                 (IsIgnoredRow(r.lines[i]) # (kindOf(obs[i]) = "ignored")), "C15:ignored_mark")
-    \cup Flag(C.action = "bench" /\ \E i \in RowIdx(r) : obs[i] \in expPaths /\ kindOf(obs[i]) = "parent" /\
+    \cup Flag(\E i \in RowIdx(r) : keyOf(i) \in expPaths /\
+                 (IsIgnoredRow(r.lines[i]) # (kindOf(keyOf(i)) = "ignored")), "C15:ignored_mark")
+    \cup Flag(C.action = "bench" /\ \E i \in RowIdx(r) : keyOf(i) \in expPaths /\ kindOf(keyOf(i)) = "parent" /\
                  DepthOf(r.lines[i]) > 0 /\ ~CellsEmpty(r.lines[i]), "C20:cells_on_a_group_row")
     \* ---------------------------------------------------------------- C16
-    \cup Flag(\E i \in RowIdx(r) : HasLaterSibling(r, i) /\ obs[i] \in expPaths /\
+    \cup Flag(\E i \in RowIdx(r) : HasLaterSibling(r, i) /\ keyOf(i) \in expPaths /\
           LET n == NextUpTo(r, i, DepthOf(r.lines[i]))
               x == obs[i] y == obs[n]
               isT(z) == Len(z) >= 2 /\ z[1] = 116 /\ z[2] = 61
-              sibOf(dp) ==
-                LET lf == LeafOfPath(P, dp) IN
-                IF lf # {} THEN LeafSib(CHOOSE q \in lf : TRUE)
-                ELSE \* a parent: find its raw path through any selected leaf below it
+              \* the argument-case rows of a benchmark with args
+              argLeaf(z) == IF Len(z) < 2 THEN {}
+                            ELSE {q \in LeafOfPath(P, Front(z)) : q.isArgs /\ \E k \in 1..Len(q.args) : q.args[k] = Last(z)}
+              sibOf(j) ==
+                LET dp == obs[j] lf == LeafOfPath(P, dp) IN
+                IF lf # {} /\ (~obsIsParent(j) \/ leafAsParent(dp)) THEN LeafSib(CHOOSE q \in lf : TRUE)
+                ELSE \* a module / group: find its raw path through any selected leaf below it
                   LET below == {q \in sel : Len(DispPath(P, q)) > Len(dp) /\ SubSeq(DispPath(P, q), 1, Len(dp)) = dp}
                       q0 == CHOOSE q \in below : TRUE
                   IN ParentSib(P, C, SubSeq(q0.parents, 1, Len(dp)))
-          IN y \in expPaths /\
+          IN keyOf(n) \in expPaths /\
              IF isT(Last(x)) /\ isT(Last(y))
                THEN NumOf(SubSeq(Last(x), 3, Len(Last(x)))) >= NumOf(SubSeq(Last(y), 3, Len(Last(y))))
-             ELSE IF LeafOfPath(P, x) = {} /\ Len(x) >= 2 /\ LeafOfPath(P, Front(x)) # {}
+             ELSE IF LeafOfPath(P, x) = {} /\ argLeaf(x) # {} /\ argLeaf(x) = argLeaf(y)
                THEN \* two argument rows of one benchmark
-                 LET lf == CHOOSE q \in LeafOfPath(P, Front(x)) : TRUE
+                 LET lf == CHOOSE q \in argLeaf(x) : TRUE
                      pa == CHOOSE k \in 1..Len(lf.args) : lf.args[k] = Last(x)
                      pb == CHOOSE k \in 1..Len(lf.args) : lf.args[k] = Last(y)
                  IN ~\E c \in ArgNameCmpDirSet(C.sort_key, C.reverse, Last(x), Last(y), pa, pb) : c <= 0
-             ELSE ~\E c \in SibCmpSet(C, sibOf(x), sibOf(y)) : c <= 0,
+             ELSE ~\E c \in SibCmpSet(C, sibOf(i), sibOf(n)) : c <= 0,
           "C16:siblings_not_in_the_documented_order")
     \* ------------------------------------------ C13 / C14 / C17 / C15: invocations
     \cup Flag(listing /\ (Len(r.invokes) # 0 \/ r.stray_calls # 0), "C14:listing_invoked_a_benchmark")
